@@ -53,7 +53,7 @@ def b01 (b : Bool) : String := if b then "1" else "0"
 def optS (o : Option String) : String := match o with | some s => hexS s | none => "None"
 def optI (o : Option Int) : String := match o with | some n => toString n | none => "None"
 def lfS : LogFile → String
-  | .none => "None" | .auto => "AUTO" | .syslog => "SYSLOG" | .path p => "P:" ++ hexS p
+  | .none => "None" | .auto => "AUTO" | .syslog => "SYSLOG" | .path p => "P:" ++ hexS p | .resolved => "AUTO"
 def restartS : AutoRestart → String
   | .never => "never" | .unexpected => "unexpected" | .always => "always"
 def kvLt (a b : String × String) : Bool := decide (a.1 < b.1)
